@@ -41,6 +41,7 @@ class Case:
     job: dict
     answer: dict
     model: list | None      # parsed model answer of the `back` command on the real API object
+    front: list | None = None   # parsed answer of the analyzer model (`front` command) on the dumped view
 
 
 def _evict():
@@ -74,7 +75,7 @@ def build(stream: str, n: int, seed: int) -> list[Case]:
         files = gen_pkg.package_files(p)
         root = base / f"t{i}"
         implrun.write_tree(root, files)
-        job = {"src": str(root / p.name), "out": str(base / f"o{i}"), "docstyle": p.style, **sp["job"]}
+        job = {"src": str(root / p.name), "out": str(base / f"o{i}"), "docstyle": p.style, "view": True, **sp["job"]}
         jobs.append(job)
         cases.append([i, p, files, job])
     if stream == "base":
@@ -86,7 +87,7 @@ def build(stream: str, n: int, seed: int) -> list[Case]:
             root = base / f"fixed_{wname}"
             implrun.write_tree(root, files)
             job = {"src": str(root / p.name), "out": str(base / f"o_fixed_{wname}"), "docstyle": p.style, "nc": False, "tsp": "code",
-                   "tsw": "warn", **opts}
+                   "tsw": "warn", "view": True, **opts}
             jobs.append(job)
             cases.append([len(cases), p, files, job])
     answers = implrun.run_jobs(jobs)
@@ -97,13 +98,40 @@ def build(stream: str, n: int, seed: int) -> list[Case]:
             idx.append(k)
     models = vlib.run_model(lines) if lines else []
     by = dict(zip(idx, models, strict=True))
+    fronts = run_front(answers)
     out = []
     for k, (i, p, files, job) in enumerate(cases):
         a = answers[k]
-        a.pop("api_sx", None)
-        out.append(Case(i, p, files, job, a, by.get(k)))
+        out.append(Case(i, p, files, job, a, by.get(k), fronts[k]))
     implrun.cleanup()
     return out
+
+
+def run_front(answers: list[dict]) -> list:
+    """the analyzer model on the view dumped for each job; api_sx/view_sx are replaced by the parsed API tree"""
+    lines, idx = [], []
+    for k, a in enumerate(answers):
+        v = a.pop("view_sx", None)
+        sxs = a.pop("api_sx", None)
+        a["api_tree"] = vlib.parse_sx(sxs) if sxs else None
+        if v:
+            lines.append("(" + vlib.sx("front") + " " + v + ")")
+            idx.append(k)
+    ms = vlib.run_model(lines) if lines else []
+    by = dict(zip(idx, ms, strict=True))
+    return [by.get(k) for k in range(len(answers))]
+
+
+def front_disagreements(cases: list[Case], prop: str) -> list[dict]:
+    import frontcmp
+    dis = []
+    for c in cases:
+        if not c.job.get("view"):
+            continue
+        d = frontcmp.disagreement(prop, c.answer, c.front)
+        if d is not None:
+            dis.append({"case": c.job, **d})
+    return dis
 
 
 def get(stream: str, n: int, seed: int, tier: str) -> list[Case]:
